@@ -101,3 +101,29 @@ func DebugPath(p *Prog, a *Anchors, from string, pred func(ssa.Instruction) bool
 	}
 	fmt.Println("no path")
 }
+
+// DebugAdds lists the additions on time.Duration values in functions reachable from RoundTrip.
+func DebugAdds(p *Prog, a *Anchors) {
+	for _, fn := range p.RepoFuncs {
+		if !a.Reach[fn] {
+			continue
+		}
+		instrsOf(fn, func(in ssa.Instruction) {
+			if b, ok := in.(*ssa.BinOp); ok && (b.Op.String() == "+" || b.Op.String() == "*") && typeIs(b.Type(), "time", "Duration") {
+				fmt.Println(p.ShortName(fn), p.InstrPos(in), b.String())
+			}
+		})
+	}
+}
+
+// DebugReach prints the functions reachable (rule-level reachability) from the named function.
+func DebugReach(p *Prog, a *Anchors, name string) {
+	c := &Ctx{P: p, A: a, An: NewAnalysis(p, a)}
+	for _, fn := range p.RepoFuncs {
+		if p.ShortName(fn) == name {
+			for _, g := range c.reachableFrom(fn) {
+				fmt.Println("  ", p.ShortName(g))
+			}
+		}
+	}
+}
